@@ -15,7 +15,7 @@ TECHNIQUE = 'static analysis: SQL constant tables (liveness predicate, complemen
 CLAUSE = ('every SQLite statement of the store filters on id and on the one liveness predicate, the predicate under which '
           'create may replace a row is its exact complement and delete_expired implies not-live; mutators map zero affected '
           'rows to UnknownId; each store operation is one SQL statement / one mutex acquisition held to the end; in-memory '
-          'accessors are staleness-guarded, operations are fail-atomic and use one comparison direction for expiry.')
+          'accessors are staleness-guarded, operations are fail-atomic and use one comparison direction for expiry. Every column assignment of an UPDATE takes its value from a placeholder; change_id removes a not-live row under the new id before renaming (exact complement of the liveness predicate).')
 TRUSTED = ['a single SQLite statement is atomic', 'tokio::sync::Mutex gives mutual exclusion while the guard lives',
            'unixepoch() / jiff Timestamp::now() are the clock']
 
